@@ -9,7 +9,7 @@
 From Coq Require Import List ZArith NArith Lia.
 From BPT Require Import Common.Base Common.AMap Rust.Tree Rust.InvDefs Py.Tree Py.Run Py.Inv Py.Facts Py.Spec.
 Import ListNotations.
-Open Scope Z_scope.
+Local Open Scope Z_scope.
 
 Definition K (z : Z) : key := mkKey z (Z.to_N z).
 
